@@ -626,6 +626,9 @@ def _wh_real_to_binary(events, betas, lambda_, cue_vectors, *,
     elif isinstance(weights, xr.DataArray):
         if not all(cue_vector_dimensions == weights['cue_vector_dimensions']):
             raise ValueError("Cue vector dimensions names do not match in weights and cue_vectors")
+        # align the cue vector dimension names between the old weights and the
+        # cue_vectors (the comparison above is aligned by name, not by position)
+        weights = weights.loc[{'cue_vector_dimensions': cue_vector_dimensions}]
 
         old_outcomes = weights.coords["outcomes"].values.tolist()
         new_outcomes = list(set(outcomes) - set(old_outcomes))
